@@ -447,7 +447,9 @@ func packDataOpt(options []EDNS0, msg []byte, off int) (int, error) {
 }
 
 func unpackStringOctet(msg []byte, off int) (string, int, error) {
-	s := string(msg[off:])
+	// The presentation form escapes with a backslash (see packOctetString and
+	// sprintTxtOctet), so a backslash octet on the wire is an escaped one here.
+	s := strings.ReplaceAll(string(msg[off:]), `\`, `\\`)
 	return s, len(msg), nil
 }
 
